@@ -535,3 +535,103 @@ func init() {
 		mutant{"benign:kvget-through-a-locked-closure-helper", "pkg/core/kv.go", "func (s *KVStore) Get(key string) ([]byte, bool) {\n\ts.mu.RLock()\n\tdefer s.mu.RUnlock()\n\n\tvalue, found := s.data[key]\n\tif !found {\n\t\treturn nil, false\n\t}\n\treturn append([]byte(nil), value...), true\n}\n", "func (s *KVStore) withRead(f func()) {\n\ts.mu.RLock()\n\tdefer s.mu.RUnlock()\n\tf()\n}\n\nfunc (s *KVStore) Get(key string) (out []byte, found bool) {\n\ts.withRead(func() {\n\t\tvar value []byte\n\t\tif value, found = s.data[key]; found {\n\t\t\tout = append([]byte(nil), value...)\n\t\t}\n\t})\n\treturn out, found\n}\n", "silent", ""},
 	)
 }
+
+func init() {
+	addMutants("C17",
+		mutant{"benign:match-distance-as-one-quotient", "pkg/proxy/proxy.go", "\treturn float32(1.0/sim - 1.0)\n", "\treturn float32((1.0 - sim) / sim)\n", "silent", ""},
+		mutant{"benign:firewall-threshold-compared-from-the-other-side", "pkg/proxy/proxy.go", "\tif dist := matchDistance(bestMatch); dist < p.cfg.FirewallThreshold {\n\t\treturn true, fmt.Sprintf(\"Similar to '%s' (Dist: %.4f)\", bestMatch.ID, dist)\n\t}\n\treturn false, \"\"\n", "\tdist := matchDistance(bestMatch)\n\tif p.cfg.FirewallThreshold <= dist {\n\t\treturn false, \"\"\n\t}\n\treturn true, fmt.Sprintf(\"Similar to '%s' (Dist: %.4f)\", bestMatch.ID, dist)\n", "silent", ""},
+	)
+	addMutants("C18",
+		mutant{"benign:kernel-length-guard-with-named-lengths", "pkg/core/distance/distance_go.go", "func squaredEuclideanDistanceGo(v1, v2 []float32) (float64, error) {\n\tif len(v1) != len(v2) {\n", "func squaredEuclideanDistanceGo(v1, v2 []float32) (float64, error) {\n\tif n, m := len(v1), len(v2); m != n {\n", "silent", ""},
+	)
+	addMutants("C19",
+		mutant{"benign:kernel-length-guard-with-named-lengths", "pkg/core/distance/distance_go.go", "func squaredEuclideanDistanceGo(v1, v2 []float32) (float64, error) {\n\tif len(v1) != len(v2) {\n", "func squaredEuclideanDistanceGo(v1, v2 []float32) (float64, error) {\n\tif n, m := len(v1), len(v2); m != n {\n", "silent", ""},
+	)
+}
+
+func init() {
+	addMutants("C20",
+		mutant{"benign:separator-partition-with-index-of-first-non-space", "pkg/rag/splitter.go", "\tlead := len(separator) - len(strings.TrimLeftFunc(separator, unicode.IsSpace))\n\tjoiner, kept := separator[:lead], separator[lead:]\n", "\tlead := strings.IndexFunc(separator, func(r rune) bool { return !unicode.IsSpace(r) })\n\tif lead < 0 {\n\t\tlead = len(separator)\n\t}\n\tjoiner, kept := separator[:lead], separator[lead:]\n", "brittle", ""},
+		mutant{"benign:kept-part-prepended-with-a-builder", "pkg/rag/splitter.go", "\t\tif i > 0 {\n\t\t\tpart = kept + part\n\t\t}\n", "\t\tif i != 0 && kept != \"\" {\n\t\t\tpart = strings.Join([]string{kept, part}, \"\")\n\t\t}\n", "silent", ""},
+	)
+}
+
+// round-4 rules
+func init() {
+	lastSep := mutant{"graph-id-cut-at-last-separator", "pkg/engine/graph.go", "\tparts := strings.SplitN(internalID, graphIDSeparator, 2)\n\tif len(parts) == 2 {\n\t\treturn parts[1]\n\t}\n\treturn internalID\n", "\tif i := strings.LastIndex(internalID, graphIDSeparator); i >= 0 {\n\t\treturn internalID[i+2:]\n\t}\n\treturn internalID\n", "CDC-10", "extractNodeID:cuts-at-first-separator"}
+	for _, p := range []string{"C04", "C06", "C10", "C11"} {
+		addMutants(p, lastSep)
+	}
+	addMutants("C10",
+		mutant{"benign:graph-id-cut-with-strings-cut", "pkg/engine/graph.go", "\tparts := strings.SplitN(internalID, graphIDSeparator, 2)\n\tif len(parts) == 2 {\n\t\treturn parts[1]\n\t}\n\treturn internalID\n", "\tif _, rest, found := strings.Cut(internalID, graphIDSeparator); found {\n\t\treturn rest\n\t}\n\treturn internalID\n", "silent", ""},
+		mutant{"edge-weight-journaled-with-six-digits", "pkg/engine/graph.go", "\tweightStr := strconv.FormatFloat(float64(weight), 'f', -1, 32)\n\ttimeStr := strconv.FormatInt(now, 10)\n\tcmd := persistence.FormatCommand(\"GLINK\"", "\tweightStr := strconv.FormatFloat(float64(weight), 'f', 6, 32)\n\ttimeStr := strconv.FormatInt(now, 10)\n\tcmd := persistence.FormatCommand(\"GLINK\"", "CDC-10", "Engine.VLink:float#1:shortest-round-trip"},
+	)
+	addMutants("C01",
+		mutant{"config-durations-journaled-in-whole-seconds", "pkg/core/hnsw/config.go", "\treturn json.Marshal(time.Duration(d).String())\n", "\treturn json.Marshal(fmt.Sprintf(\"%ds\", int64(time.Duration(d)/time.Second)))\n", "CDC-11", "Duration.MarshalJSON:whole-value"},
+		mutant{"snapshot-metadata-decoded-with-use-number", "pkg/core/core.go", "\t\tif err := json.Unmarshal(aux.MetaJSON, &ns.Metadata); err != nil {\n", "\t\tdec := json.NewDecoder(bytes.NewReader(aux.MetaJSON))\n\t\tdec.UseNumber()\n\t\tif err := dec.Decode(&ns.Metadata); err != nil {\n", "SIB-numtypes", "decodes-numbers-as-json.Number"},
+	)
+	addMutants("C14",
+		mutant{"gate-woken-by-an-operation-of-any-epoch", "pkg/engine/opgate.go", "\tif g.active[ep&1] == 0 && ep != g.epoch && g.idle != nil {\n", "\tif g.active[ep&1] == 0 && g.idle != nil {\n", "ORD-9", "opGate.leave:wake#1:only-for-an-earlier-epoch"},
+	)
+	addMutants("C03",
+		mutant{"bad-checksum-frame-stepped-over-by-its-own-size", "pkg/engine/recovery.go", "\t\t\tslog.Warn(\"AOF Corruption Detected\", \"error\", err, \"offset\", validOffset)\n\t\t\tresyncOffset, found := resyncAOF(file, validOffset)", "\t\t\tslog.Warn(\"AOF Corruption Detected\", \"error\", err, \"offset\", validOffset)\n\t\t\tif errors.Is(err, persistence.ErrChecksumMismatch) {\n\t\t\t\tvalidOffset += int64(frameSize)\n\t\t\t\tcontinue\n\t\t\t}\n\t\t\tresyncOffset, found := resyncAOF(file, validOffset)", "GRD-scan", "frame-read#1:failure-leads-to-resync"},
+	)
+	addMutants("C08",
+		mutant{"numeric-strings-count-as-numbers", "pkg/core/core.go", "\tcase uint64:\n\t\treturn float64(val), true\n\tdefault:\n\t\treturn 0, false\n", "\tcase uint64:\n\t\treturn float64(val), true\n\tcase string:\n\t\tf, err := strconv.ParseFloat(val, 64)\n\t\treturn f, err == nil\n\tdefault:\n\t\treturn 0, false\n", "SIB-numconv", "toFloat64Ok:numeric-arms-only"},
+		mutant{"filter-whitespace-collapsed-before-evaluation", "pkg/engine/ops.go", "\tresult, err := e.DB.FindIDsByFilter(indexName, filter)\n\tif err != nil {\n\t\treturn nil, fmt.Errorf(\"invalid filter: %w\", err)\n", "\tfilter = strings.Join(strings.Fields(filter), \" \")\n\tresult, err := e.DB.FindIDsByFilter(indexName, filter)\n\tif err != nil {\n\t\treturn nil, fmt.Errorf(\"invalid filter: %w\", err)\n", "GRD-verbatim-filter", "VFilter:evaluation#1:filter-verbatim"},
+	)
+	addMutants("C09",
+		mutant{"handler-defaults-a-zero-alpha", "internal/server/http_handlers.go", "\tif req.K > maxK {\n\t\ts.writeHTTPError(w, http.StatusBadRequest, fmt.Errorf(\"k must be between 1 and %d\", maxK))\n\t\treturn\n\t}\n\n\t// --- Auto-embed: if QueryVector empty but QueryText provided ---\n", "\tif req.K > maxK {\n\t\ts.writeHTTPError(w, http.StatusBadRequest, fmt.Errorf(\"k must be between 1 and %d\", maxK))\n\t\treturn\n\t}\n\tif req.Alpha == 0 {\n\t\treq.Alpha = 0.5\n\t}\n\n\t// --- Auto-embed: if QueryVector empty but QueryText provided ---\n", "WEB-verbatim", "rewrites-alpha"},
+		mutant{"text-hits-collected-only-up-to-k", "pkg/engine/ops.go", "\t\t\t\tvar filtered []types.SearchResult\n\t\t\t\tfor _, res := range results {\n\t\t\t\t\tif allowList.Contains(res.DocID) {", "\t\t\t\tvar filtered []types.SearchResult\n\t\t\t\tfor _, res := range results {\n\t\t\t\t\tif len(filtered) >= k {\n\t\t\t\t\t\tbreak\n\t\t\t\t\t}\n\t\t\t\t\tif allowList.Contains(res.DocID) {", "GRD-order", "no-candidate-cut-before-fusion"},
+	)
+	addMutants("C18",
+		mutant{"single-insert-normalises-the-caller-s-slice", "pkg/core/hnsw/hnsw_index.go", "\t\tvCopy := make([]float32, len(vector))\n\t\tcopy(vCopy, vector)\n\t\tnormalize(vCopy)\n\t\tvector = vCopy\n", "\t\tnormalize(vector)\n", "GRD-own-arg", "Index.addActive:normalize#1:on-own-copy"},
+		mutant{"batch-insert-normalises-the-caller-s-slice", "pkg/core/hnsw/hnsw_index.go", "\t\t\t\t\tvec = append([]float32(nil), vec...)\n\t\t\t\t\tnormalize(vec)\n", "\t\t\t\t\tnormalize(vec)\n", "GRD-own-arg", "normalize#1:on-own-copy"},
+	)
+}
+
+func init() {
+	addMutants("C16",
+		mutant{"kv-get-hands-out-reserved-keys", "internal/server/http_handlers.go", "\tif auth.IsReservedKey(key) {\n\t\t// the token signing key, the revocation list and the API key policies live\n\t\t// in the same store under this prefix: never part of the data plane\n\t\ts.writeHTTPError(w, http.StatusForbidden, fmt.Errorf(\"key is reserved\"))\n\t\treturn\n\t}\n\tvalue, found := s.Engine.KVGet(key)", "\t_ = auth.IsReservedKey\n\tvalue, found := s.Engine.KVGet(key)", "WEB-9", "Server.handleKVGet:KVGet#1:behind-reserved-key-test"},
+	)
+}
+
+func init() {
+	addMutants("C10",
+		mutant{"index-names-may-contain-the-graph-separator", "pkg/engine/ops.go", "\tif strings.Contains(name, graphIDSeparator) {\n\t\treturn fmt.Errorf(\"invalid index name %q: must not contain %q\", name, graphIDSeparator)\n\t}\n", "", "CDC-10", "Engine.VCreate:name-without-separator"},
+	)
+}
+
+func init() {
+	addMutants("C13",
+		mutant{"visited-set-indexed-without-growing", "pkg/core/hnsw/bitset.go", "\tbucketIndex := n >> 6 // >> 6 == / 64\n\n\tif bucketIndex >= uint32(len(bs.buckets)) {\n\t\tbs.grow(n)\n\t}\n\n\t// Use bitwise AND: n & 63 == n % 64\n\tbs.buckets[bucketIndex] |= (1 << (n & 63))\n", "\tbs.buckets[n>>6] |= (1 << (n & 63))\n", "GRD-bitset", "BitSet.Add:buckets-access#1:in-range-or-grown"},
+		mutant{"result-hydration-hands-out-the-stored-metadata", "pkg/core/core.go", "\t\tif nodeMeta, ok := idxMap[nodeID]; ok {\n\t\t\tresult := make(map[string]any, len(nodeMeta))\n\t\t\tfor k, v := range nodeMeta {\n\t\t\t\tresult[k] = v\n\t\t\t}\n\t\t\treturn result\n\t\t}\n\t}\n\treturn make(map[string]any)\n}\n\n// GetMetadataForNode exposes", "\t\tif nodeMeta, ok := idxMap[nodeID]; ok {\n\t\t\treturn nodeMeta\n\t\t}\n\t}\n\treturn make(map[string]any)\n}\n\n// GetMetadataForNode exposes", "GRD-own-meta", "own-map"},
+		mutant{"benign:bitset-add-grows-through-ensure-capacity", "pkg/core/hnsw/bitset.go", "\tif bucketIndex >= uint32(len(bs.buckets)) {\n\t\tbs.grow(n)\n\t}\n\n\t// Use bitwise AND: n & 63 == n % 64\n", "\tif uint32(len(bs.buckets)) <= bucketIndex {\n\t\tbs.grow(n)\n\t}\n\n\t// Use bitwise AND: n & 63 == n % 64\n", "silent", ""},
+	)
+	addMutants("C15",
+		mutant{"half-life-days-truncated-to-whole-hours", "internal/mcp/service.go", "\t\t\tmemCfg.DecayHalfLife = hnsw.Duration(args.MemoryConfig.HalfLifeDays * 24 * float64(time.Hour))\n", "\t\t\tmemCfg.DecayHalfLife = hnsw.Duration(time.Duration(args.MemoryConfig.HalfLifeDays*24) * time.Hour)\n", "UNI-2", "converts-before-scaling"},
+	)
+	addMutants("C18",
+		mutant{"compactor-pulls-the-bump-pointer-back", "pkg/storage/mmap/compactor.go", "\t\tac.arena.chunks = ac.arena.chunks[:lastChunkIdx]\n\t}\n\n\tif droppedCount > 0 {", "\t\tac.arena.chunks = ac.arena.chunks[:lastChunkIdx]\n\t\tif ac.arena.nextPhysSlot > chunkStartSlot {\n\t\t\tac.arena.nextPhysSlot = chunkStartSlot\n\t\t}\n\t}\n\n\tif droppedCount > 0 {", "GRD-frontier", "nextPhysSlot-store"},
+	)
+	addMutants("C19",
+		mutant{"allocation-sized-by-an-unbounded-request-field", "internal/server/http_handlers.go", "\t\tvar ids []string\n\t\tcount := 0\n\t\thnswIdx.IterateRaw(func(id string, _ interface{}) {\n\t\t\tif count >= req.Limit {\n\t\t\t\treturn\n\t\t\t}\n\t\t\tids = append(ids, id)\n\t\t\tcount++\n\t\t})\n", "\t\tids := make([]string, 0, req.Limit)\n\t\thnswIdx.IterateRaw(func(id string, _ interface{}) {\n\t\t\tif len(ids) >= req.Limit {\n\t\t\t\treturn\n\t\t\t}\n\t\t\tids = append(ids, id)\n\t\t})\n", "WEB-6b", "make-sized-by-request"},
+		mutant{"filter-value-unquoted-by-slicing", "pkg/core/core.go", "\tvalueStr = strings.Trim(valueStr, \"'\\\"\")\n", "\tif n := len(valueStr); n > 0 && (valueStr[0] == '\\'' || valueStr[0] == '\"') && valueStr[n-1] == valueStr[0] {\n\t\tvalueStr = valueStr[1 : n-1]\n\t}\n", "GRD-slice", "evaluateBooleanFilter:valueStr[1:n-1]"},
+		mutant{"benign:filter-value-unquoted-by-slicing-with-length-two", "pkg/core/core.go", "\tvalueStr = strings.Trim(valueStr, \"'\\\"\")\n", "\tif n := len(valueStr); n >= 2 && (valueStr[0] == '\\'' || valueStr[0] == '\"') && valueStr[n-1] == valueStr[0] {\n\t\tvalueStr = valueStr[1 : n-1]\n\t}\n", "silent", ""},
+	)
+	addMutants("C20",
+		mutant{"chunker-skips-the-first-window-of-short-texts", "pkg/core/text/chunker.go", "\tfor i := 0; i < length; i += (chunkSize - overlapSize) {\n", "\tfor i := 0; i+overlapSize < length; i += (chunkSize - overlapSize) {\n", "GRD-chunkloop", "FixedSizeChunker:first-window-always-emitted"},
+	)
+}
+
+func init() {
+	m := mutant{"decay-model-survives-the-iteration", "pkg/engine/ops.go", "\t\t\tglobalHalfLife = 604800 // 7 days default\n\t\t}\n\n\t\t// Get default decay model from config\n\t\tdefaultDecayModel := string(memCfg.DecayModel)\n\t\tif defaultDecayModel == \"\" {\n\t\t\tdefaultDecayModel = \"exponential\"\n\t\t}\n", "\t\t\tglobalHalfLife = 604800 // 7 days default\n\t\t}\n\n\t\t// Get default decay model from config\n\t\tdecayModel := string(memCfg.DecayModel)\n\t\tif decayModel == \"\" {\n\t\t\tdecayModel = \"exponential\"\n\t\t}\n", "GRD-decay-local", "model-not-loop-carried"}
+	moreEdits[m.Name] = []edit{{"pkg/engine/ops.go", "\t\t\t\t\t// Get decay model: default from config, override from metadata\n\t\t\t\t\tdecayModel := defaultDecayModel\n\t\t\t\t\tif modelOverride", "\t\t\t\t\tif modelOverride"}}
+	addMutants("C15", m)
+}
+
+func init() {
+	addMutants("C05",
+		mutant{"unpin-re-adds-the-memory-under-its-own-id", "internal/mcp/service.go", "\tif _, err := s.engine.VGet(idx, args.MemoryID); err != nil {\n\t\treturn nil, UnpinMemoryResult{}, fmt.Errorf(\"memory not found: %w\", err)\n\t}\n", "\tdata, err := s.engine.VGet(idx, args.MemoryID)\n\tif err != nil {\n\t\treturn nil, UnpinMemoryResult{}, fmt.Errorf(\"memory not found: %w\", err)\n\t}\n\tdelete(data.Metadata, \"_pinned\")\n\tif err := s.engine.VAdd(idx, args.MemoryID, data.Vector, data.Metadata); err != nil {\n\t\treturn nil, UnpinMemoryResult{}, err\n\t}\n", "EFF-readd", "Service.UnpinMemory:VAdd#1"},
+	)
+}
